@@ -1,5 +1,6 @@
 \* quick facet "interleavings": two concurrent requests with up to 2 raw requests each over 2 data sources
-\* (repeats included), every completion order, cached / fetched executables, executor ok / error
+\* (repeats included), every completion order, executables fetched by the first worker that needs them and found in
+\* the cache by later ones, executor ok / error
 CONSTANTS
   Req = {1, 2}
   DS = {1, 2}
@@ -8,12 +9,13 @@ CONSTANTS
   TxSkip = "return"
   AssumeSnapshot = TRUE
   NSet = {1, 2}
+  NSet2 = {1, 2}
   WantSet = {"me"}
   FReqSet = {0}
   FHashSet = {0}
   FDataSet = {0}
   LenSet = {5}
-  CachedSet = {TRUE, FALSE}
+  CachedSet = {FALSE}
   KindSet = {"ok", "error"}
   Modes = {"direct"}
   DeliverAnyTime = FALSE
